@@ -12,6 +12,7 @@ import (
 	"os"
 	"runtime/debug"
 	"sort"
+	"strconv"
 	"strings"
 	"sync"
 	"testing"
@@ -388,6 +389,41 @@ func (st *runState) checkDocument(r *reqRec, add func(p, oracle, sig, detail str
 		add("C15", "trailing-data", "response body has data after the JSON document: "+rq.Kind, fmt.Sprintf("req%d %s body=%.300q", r.ID, r.Path, r.Body.String()))
 		return
 	}
+	switch rq.Kind {
+	case "labels", "label_values", "prom_labels", "prom_label_values", "tags", "tag_values":
+		// list endpoints: every served string exactly once, in the order served
+		var data []*sqlfake.Stmt
+		for _, s := range r.Stmts {
+			if s.Class == "data" && len(s.Cols) == 1 {
+				data = append(data, s)
+			}
+		}
+		if len(data) != 1 || data[0].Aborted {
+			return
+		}
+		var got []string
+		if m, ok := doc.(map[string]any); ok {
+			for _, key := range []string{"data", "tagNames", "tagValues"} {
+				if arr, ok := m[key].([]any); ok {
+					for _, v := range arr {
+						got = append(got, fmt.Sprint(v))
+					}
+				}
+			}
+		}
+		want := data[0].Strings
+		if len(got) != len(want) {
+			add("C15", "list-differs", "label/tag list differs from the rows served: "+rq.Kind, fmt.Sprintf("req%d %s: served %d values %.200q, document has %d: %.200q", r.ID, r.Path, len(want), want, len(got), got))
+			return
+		}
+		for i := range want {
+			if got[i] != want[i] {
+				add("C15", "list-differs", "label/tag list differs from the rows served: "+rq.Kind, fmt.Sprintf("req%d %s: element %d served %q, document has %q", r.ID, r.Path, i, want[i], got[i]))
+				return
+			}
+		}
+		return
+	}
 	if rq.Kind != "query_range" && rq.Kind != "query" {
 		return
 	}
@@ -405,6 +441,10 @@ func (st *runState) checkDocument(r *reqRec, add func(p, oracle, sig, detail str
 	d, _ := m["data"].(map[string]any)
 	if m["status"] != "success" || d == nil {
 		add("C15", "wrong-shape", "response lacks status/data: "+rq.Kind, fmt.Sprintf("req%d %s body=%.300q", r.ID, r.Path, r.Body.String()))
+		return
+	}
+	if d["resultType"] == "matrix" || d["resultType"] == "vector" {
+		st.checkMatrix(r, d, add)
 		return
 	}
 	if d["resultType"] != "streams" {
@@ -472,6 +512,105 @@ func (st *runState) checkDocument(r *reqRec, add func(p, oracle, sig, detail str
 			}
 		}
 	}
+}
+
+// checkMatrix: a metric result served entirely by ClickHouse goes through the zero-eater and the step
+// filler only, so every series object must be unique per label set, every value must be one of the
+// values served for that series, rendered without loss, and every timestamp a plain number.
+func (st *runState) checkMatrix(r *reqRec, d map[string]any, add func(p, oracle, sig, detail string)) {
+	rq := r.Req
+	res, ok := d["result"].([]any)
+	if !ok {
+		add("C15", "wrong-shape", "data.result is not an array: "+rq.Kind, fmt.Sprintf("req%d %s body=%.300q", r.ID, r.Path, r.Body.String()))
+		return
+	}
+	served := map[string]map[string]bool{}
+	for _, row := range rq.Result.Rows() {
+		k := labelKey(row.Labels)
+		if served[k] == nil {
+			served[k] = map[string]bool{}
+		}
+		served[k][strconv.FormatFloat(row.Value, 'f', -1, 64)] = true
+	}
+	seen := map[string]int{}
+	for _, o := range res {
+		om, _ := o.(map[string]any)
+		mm, ok := om["metric"].(map[string]any)
+		if !ok {
+			add("C15", "wrong-shape", "matrix/vector element lacks metric", fmt.Sprintf("req%d %s element=%v", r.ID, r.Path, o))
+			return
+		}
+		lm := map[string]string{}
+		for k, v := range mm {
+			lm[k] = fmt.Sprint(v)
+		}
+		k := labelKey(lm)
+		seen[k]++
+		var vals []any
+		if vs, ok := om["values"].([]any); ok {
+			vals = vs
+		} else if v, ok := om["value"].([]any); ok {
+			vals = []any{v}
+		} else {
+			add("C15", "wrong-shape", "matrix/vector element lacks values", fmt.Sprintf("req%d %s element=%v", r.ID, r.Path, o))
+			return
+		}
+		for _, v := range vals {
+			pair, _ := v.([]any)
+			if len(pair) != 2 {
+				add("C15", "wrong-shape", "sample is not a [time, value] pair", fmt.Sprintf("req%d %s sample=%v", r.ID, r.Path, v))
+				return
+			}
+			if _, ok := pair[0].(float64); !ok {
+				add("C15", "wrong-shape", "sample time is not a number", fmt.Sprintf("req%d %s sample=%v", r.ID, r.Path, v))
+				return
+			}
+			sv, ok := pair[1].(string)
+			if !ok {
+				add("C15", "wrong-shape", "sample value is not a string", fmt.Sprintf("req%d %s sample=%v", r.ID, r.Path, v))
+				return
+			}
+			if passThroughMetric(rq.Query) && served[k] != nil && !served[k][sv] {
+				if f, err := strconv.ParseFloat(sv, 64); err != nil || !served[k][strconv.FormatFloat(f, 'f', -1, 64)] {
+					add("C15", "value-altered", "a numeric value is not rendered as it was served",
+						fmt.Sprintf("req%d %s: series %s carries %q; values served for that series: %v", r.ID, r.Path, k, sv, keysOfBool(served[k])))
+					return
+				}
+			}
+		}
+	}
+	if !rq.Result.Interleave {
+		for k, n := range seen {
+			if n > 1 {
+				add("C15", "stream-split", "one label set is returned as several series objects", fmt.Sprintf("req%d %s: label set %s appears in %d objects", r.ID, r.Path, k, n))
+				return
+			}
+		}
+	}
+}
+
+func keysOfBool(m map[string]bool) []string {
+	var r []string
+	for k := range m {
+		r = append(r, k)
+	}
+	sort.Strings(r)
+	if len(r) > 12 {
+		r = r[:12]
+	}
+	return r
+}
+
+// passThroughMetric: a range aggregation that ClickHouse computes completely (no json/logfmt/line_format split,
+// no outer operator), so the served values reach the encoder unchanged apart from step filling.
+func passThroughMetric(q string) bool {
+	q = strings.TrimSpace(q)
+	for _, fn := range []string{"rate(", "count_over_time(", "bytes_rate(", "bytes_over_time("} {
+		if strings.HasPrefix(q, fn) && !strings.Contains(q, "| json") && !strings.Contains(q, "| logfmt") && !strings.Contains(q, "line_format") && strings.HasSuffix(q, "])") {
+			return true
+		}
+	}
+	return false
 }
 
 // passThrough reports whether a LogQL query is a plain selector (no line filter, no stage), so
